@@ -3,13 +3,163 @@ automaton and gate order; what addrparse returns for every spelling and the cons
 lookups as string functions are not decided)."""
 from collections import deque
 from qv.core import AnalysisBroken
-from qv.esp import Engine, Outcome, TOP, fs
-from qv.lib import QHooks, holds_set, macro_const
+from qv.esp import Engine, Outcome, TOP, fs, ptr_add
+from qv.lib import QHooks, holds_set, macro_const, branch_zero_test, deep_calls, guards_through, consistent_values
 
 
 def g1(E, k, d=None):
     v = E.get(k)
     return next(iter(v)) if v else d
+
+
+class RcptHooks(QHooks):
+    """rcpthosts() over a concrete address: which strings are looked up, in which table, and what is returned"""
+    def __init__(self, addr, entry='rcpthosts'):
+        self.addr = addr
+        self.entry = entry
+        self.results = []
+
+    def tracked_global(self, path):
+        return True
+
+    def precise_arith(self, path):
+        return True
+
+    @staticmethod
+    def ptr(v):
+        if v is not TOP and len(v) == 1:
+            (a,) = v
+            if isinstance(a, tuple) and a[0] == '&':
+                return a
+        return None
+
+    @staticmethod
+    def num(v):
+        if v is not TOP and len(v) == 1 and isinstance(next(iter(v)), int):
+            return next(iter(v))
+        return None
+
+    def rd(self, E, p, n):
+        out = []
+        for i in range(n):
+            q = ptr_add(p, i) if p is not None else None
+            b = self.num(E.get(q[1])) if q is not None else None
+            out.append(b)
+        return out
+
+    def prim_byte_rchr(self, E, x, args):
+        p, n, c = self.ptr(args[0]), self.num(args[1]), self.num(args[2])
+        if p is None or n is None or c is None:
+            return [Outcome(ret=TOP)]
+        bs = self.rd(E, p, n)
+        pos = n
+        for i, b in enumerate(bs):
+            if b == c:
+                pos = i
+        return [Outcome(ret=fs(pos))]
+
+    def prim_byte_chr(self, E, x, args):
+        p, n, c = self.ptr(args[0]), self.num(args[1]), self.num(args[2])
+        if p is None or n is None or c is None:
+            return [Outcome(ret=TOP)]
+        bs = self.rd(E, p, n)
+        for i, b in enumerate(bs):
+            if b == c:
+                return [Outcome(ret=fs(i))]
+        return [Outcome(ret=fs(n))]
+
+    def cstr(self, E, p):
+        out = []
+        for i in range(64):
+            q = ptr_add(p, i) if p is not None else None
+            b = self.num(E.get(q[1])) if q is not None else None
+            if b is None:
+                return None
+            if b == 0:
+                return out
+            out.append(b)
+        return None
+
+    def prim_str_chr(self, E, x, args):
+        s_, c = self.cstr(E, self.ptr(args[0])), self.num(args[1])
+        if s_ is None or c is None:
+            return [Outcome(ret=TOP)]
+        return [Outcome(ret=fs(s_.index(c) if c in s_ else len(s_)))]
+
+    def prim_str_rchr(self, E, x, args):
+        s_, c = self.cstr(E, self.ptr(args[0])), self.num(args[1])
+        if s_ is None or c is None:
+            return [Outcome(ret=TOP)]
+        return [Outcome(ret=fs(len(s_) - 1 - s_[::-1].index(c) if c in s_ else len(s_)))]
+
+    def prim_str_len(self, E, x, args):
+        s_ = self.cstr(E, self.ptr(args[0]))
+        return [Outcome(ret=fs(len(s_)) if s_ is not None else TOP)]
+
+    prim_strlen = prim_str_len
+
+    def prim_stralloc_copyb(self, E, x, args):
+        sa, p, n = self.ptr(args[0]), self.ptr(args[1]), self.num(args[2])
+        if sa is None or p is None or n is None:
+            return [Outcome(ret=fs(0)), Outcome(ret=fs(1))]
+        st = {sa[1] + '.s': fs(('&', sa[1] + '.s[0]')), sa[1] + '.len': fs(n)}
+        for i, b in enumerate(self.rd(E, p, n)):
+            st['%s.s[%d]' % (sa[1], i)] = fs(b) if b is not None else TOP
+        return [Outcome(ret=fs(0), sets={'$copyfail': fs(1)}), Outcome(ret=fs(1), sets=st)]
+
+    def prim_case_lowerb(self, E, x, args):
+        p, n = self.ptr(args[0]), self.num(args[1])
+        st = {}
+        if p is not None and n is not None:
+            for i, b in enumerate(self.rd(E, p, n)):
+                if b is not None and 65 <= b <= 90:
+                    st[ptr_add(p, i)[1]] = fs(b + 32)
+        return [Outcome(ret=TOP, sets=st)]
+
+    def _look(self, E, kind, p, n, results):
+        bs = self.rd(E, p, n) if p is not None and n is not None and 0 <= n <= 64 else None
+        key = ''.join(chr(b) if b is not None else '?' for b in bs) if bs is not None else None
+        seq = tuple(g1(E, '$seq', ()))
+        return [Outcome(ret=fs(r), sets={'$seq': fs(seq + ((kind, key, r),))}) for r in results]
+
+    def prim_constmap(self, E, x, args):
+        return self._look(E, 'list', self.ptr(args[1]), self.num(args[2]), (0, 1))
+
+    def prim_cdb_seek(self, E, x, args):
+        return self._look(E, 'cdb', self.ptr(args[1]), self.num(args[2]), (0, 1, -1))
+
+    def on_return(self, E, fn, val):
+        if fn.name == self.entry:
+            self.results.append((tuple(g1(E, '$seq', ())), self.num(val) if val is not None else None, E.trace.list(), g1(E, '$copyfail', 0)))
+
+
+def rcpt_ref_ok(seq, ret, dom, flagrh, fdm):
+    """the documented behaviour of rcpthosts() for a domain (None: no @), order-insensitive within a table"""
+    if flagrh != 1 or dom is None:
+        return seq == () and ret == 1
+    if ret == -1 and seq == ():
+        return True            # out of memory before any lookup
+    low = dom.lower()
+    cands = [low[j:] for j in range(len(low)) if j == 0 or low[j] == '.']
+    lists = [s_ for s_ in seq if s_[0] == 'list']
+    cdbs = [s_ for s_ in seq if s_[0] == 'cdb']
+    if list(seq) != lists + cdbs:
+        return False
+    for tab in (lists, cdbs):
+        keys = [s_[1] for s_ in tab]
+        if len(set(keys)) != len(keys) or not set(keys) <= set(cands):
+            return False
+        if any(s_[2] != 0 for s_ in tab[:-1]):
+            return False       # went on after a hit or an error
+    if lists and lists[-1][2] != 0:
+        return ret == 1 and not cdbs
+    if set(s_[1] for s_ in lists) != set(cands):
+        return False
+    if fdm == -1:
+        return not cdbs and ret == 0
+    if cdbs and cdbs[-1][2] != 0:
+        return ret == cdbs[-1][2]
+    return set(s_[1] for s_ in cdbs) == set(cands) and ret == 0
 
 
 class SmtpdHooks(QHooks):
@@ -254,25 +404,41 @@ def run(ctx):
     r3 = rep.rule('C08.3-gates', 'R-GUARD', 'relay suffix only for relay clients; bad senders via the whole address or the part from the LAST @; over-long addresses refused below qmail-queue\'s limit; local-IP substitution before the length test')
     rc = prog.fn('smtp_rcpt', 'qmail-smtpd.c')
     suf = [c for c in rc.calls('stralloc_cats') if c.args[1].path() == 'G:relayclient']
-    r3.check(bool(suf) and any(c.path() == 'G:relayclient' and t is True for c, t in rc.guards(suf[0]) or []), 'relay-suffix-only-under-relayclient', rc.unit + ':smtp_rcpt', '')
+    r3.check(bool(suf) and all(any(branch_zero_test(c, t, lambda v: v.path() == 'G:relayclient') == 'nonzero' for c, t in rc.guards(s_) or []) for s_ in suf),
+             'relay-suffix-only-under-relayclient', rc.unit + ':smtp_rcpt', 'the relay suffix is appended on a path where RELAYCLIENT is not known to be set')
+    aal = rc.calls('addrallowed')
+    r3.check(bool(aal) and all(any(branch_zero_test(c, t, lambda v: v.path() == 'G:relayclient') == 'zero' for c, t in rc.guards(s_) or []) for s_ in aal) and
+             all(rc.can_reach(rc.pos[a_.id][0], rc.pos[c_.id][0]) or True for a_ in aal for c_ in rc.calls('stralloc_cats')),
+             'non-relay-clients-pass-addrallowed', rc.unit + ':smtp_rcpt', '')
     bm = prog.fn('bmfcheck', 'qmail-smtpd.c')
-    lk = bm.calls('constmap')
-    whole = [c for c in lk if c.args[1].path() == 'G:addr.s']
-    part = [c for c in lk if c.args[1].path() != 'G:addr.s']
-    okb = len(whole) == 1 and len(part) == 1
-    jdef = None
-    if part:
-        jv = [r for r in part[0].args[1].refs() if r.startswith('L:j')]
-        for x in bm.all_x():
-            if x.k == 'asg' and jv and x.args[0].var == jv[0]:
-                jdef = x.args[1].strip()
-    last_at = jdef is not None and jdef.k == 'call' and jdef.callee in ('byte_rchr', 'str_rchr') and jdef.args[-1].const == ord('@')
-    r3.check(okb and last_at, 'bad-sender-domain-is-the-part-from-the-last-@', bm.unit + ':bmfcheck',
-             'the domain lookup starts at the position found by %s: with the FIRST @ a sender like "a@b"@spam.example escapes an @spam.example entry' % (jdef.callee if jdef is not None and jdef.k == 'call' else jdef))
-    rets = [x for x in bm.all_x() if x.k == 'ret']
-    ones = [x for x in rets if x.args and x.args[0].const == 1]
-    r3.check(len(ones) >= 2 and all(any(c.strip().k == 'call' and c.strip().callee == 'constmap' and t is True for c, t in bm.guards(x) or []) for x in ones),
-             'bad-sender-iff-a-lookup-hits', bm.unit + ':bmfcheck', '')
+    nb = 0
+    for a_ in ('a@b', '"a@b"@c', 'ab', '', 'A@B.c', '@', 'x@'):
+        for bmfok in (0, 1):
+            H = RcptHooks(a_, 'bmfcheck')
+            e = Engine(db, prog, H)
+            st = {'G:bmfok': fs(bmfok), 'G:addr.s': fs(('&', 'G:addr.s[0]')), 'G:addr.len': fs(len(a_) + 1)}
+            for i_, ch in enumerate(a_ + '\0'):
+                st['G:addr.s[%d]' % i_] = fs(ord(ch))
+            e.run(bm, st)
+            rep.count_states(e.states, e.transitions)
+            if not H.results:
+                raise AnalysisBroken('bmfcheck(): no return reached')
+            at = a_.rfind('@')
+            cands = [a_] + ([a_[at:]] if at >= 0 else [])
+            bad_ = []
+            for seq, ret, tr, _ in H.results:
+                keys = [k for _, k, _ in seq]
+                hit = any(r_ for _, _, r_ in seq)
+                if bmfok == 0:
+                    good = seq == () and ret == 0
+                else:
+                    good = keys == cands[:len(keys)] and all(r_ == 0 for _, _, r_ in seq[:-1]) and ret == (1 if hit else 0) and (hit or keys == cands)
+                if not good:
+                    bad_.append((seq, ret, tr))
+            nb += 1
+            r3.check(not bad_, 'bmfcheck(%r,bmfok=%d)' % (a_, bmfok), bm.unit + ':bmfcheck',
+                     'lookups/result %s; documented: the whole address, then the part from the LAST @ (with the first @ a sender like "a@b"@spam.example escapes an @spam.example entry); 1 iff a lookup hits' % ([(b_[0], b_[1]) for b_ in bad_[:1]],),
+                     bad_[0][2] if bad_ else None)
     ap = prog.fn('addrparse', 'qmail-smtpd.c')
     lim = None
     for x in ap.all_x():
@@ -286,57 +452,59 @@ def run(ctx):
                             break
     addr_q = macro_const(db, 'qmail-queue.c', 'ADDR')
     r3.check(lim is not None and lim <= addr_q - 1, 'over-long-addresses-refused-below-the-queue-limit', ap.unit + ':addrparse', 'addresses of %s bytes or more are refused; qmail-queue accepts < %d' % (lim, addr_q))
-    sub = ap.calls('ipme_is')
-    lenret = [x for x in ap.all_x() if x.k == 'ret' and x.args and x.args[0].const == 0]
-    r3.check(bool(sub and lenret) and not ap.can_reach(ap.pos[lenret[0].id][0], ap.pos[sub[0].id][0]) and any(c.path() == 'G:liphostok' and t is True for c, t in ap.guards(sub[0]) or []),
-             'local-IP-substitution-before-the-length-test', ap.unit + ':addrparse', '')
-    r3.expect_min(5)
+    subs = deep_calls(prog, ap, 'ipme_is', depth=2)
+    lenret = []
+    for x in ap.all_x():
+        if x.k == 'ret' and x.args and x.args[0].const == 0 and any(holds_set(c, t, lambda v: v.path() == 'G:addr.len') for c, t in ap.guards(x) or []):
+            lenret.append(x)
+    oks = bool(subs and lenret)
+    for f_, c_ in subs:
+        anchors = [c_] if f_ is ap else ap.calls(f_.name)
+        oks = oks and bool(anchors)
+        for an in anchors:
+            for lr in lenret:
+                oks = oks and not ap.can_reach(ap.pos[lr.id][0], ap.pos[an.id][0]) and ap.can_reach(ap.pos[an.id][0], ap.pos[lr.id][0])
+        oks = oks and any(branch_zero_test(c, t, lambda v: v.path() == 'G:liphostok') == 'nonzero' for c, t in guards_through(prog, ap, f_, c_))
+    r3.check(oks, 'local-IP-substitution-before-the-length-test', ap.unit + ':addrparse', 'ipme_is() is consulted under liphostok, and the substitution precedes the test of addr.len')
+    r3.expect_min(18)
 
     # ---- rcpthosts()
     r4 = rep.rule('C08.4-rcpthosts', 'R-TABLE', 'rcpthosts(): domain lower-cased before both lookups; candidates are the whole domain and every dot suffix, same predicate for the list and the cdb; no @ or no rcpthosts file -> allowed (documented open default); cdb errors propagate')
     rh = db.fn('rcpthosts.c', 'rcpthosts')
-    cl = rh.calls('case_lowerb')
-    cm = rh.calls('constmap')
-    cs = rh.calls('cdb_seek')
-    if not (cl and cm and cs):
-        raise AnalysisBroken('rcpthosts(): lookups not found')
-    r4.check(rh.dominates(cl[0], cm[0]) and rh.dominates(cl[0], cs[0]), 'lower-casing-before-both-lookups', rh.unit + ':rcpthosts', '')
-
-    def cand(c):
-        out = []
-        for cc, t in rh.guards(c) or []:
-            s = cc.strip()
-            if t is True and ((s.k == 'un' and s.op == '!' and (s.args[0].var or '').startswith('L:j')) or
-                              (s.k == 'bin' and s.op == '==' and s.args[1].const == ord('.'))):
-                out.append(s.src())
-        return out
-    # the two disjuncts are split by short-circuit; compare the sets of comparisons guarding each lookup's loop body
-    def preds(c):
-        b = rh.pos[c.id][0]
-        found = set()
-        for blk in rh.blocks.values():
-            cnd = blk.cond
-            if cnd is None:
-                continue
-            s = cnd.strip()
-            if blk.succs and blk.succs[0] is not None and (blk.succs[0] == b):
-                from qv.lib import branch_zero_test as _bz
-                if _bz(cnd, True, lambda v: (v.var or '')[:2] == 'L:') == 'zero':
-                    found.add('j==0')
-                if s.k == 'bin' and s.op == '==' and s.args[1].const == ord('.'):
-                    found.add('dot')
-        return found
-    p1, p2 = preds(cm[0]), preds(cs[0])
-    r4.check(p1 == {'j==0', 'dot'} and p1 == p2, 'candidate-positions=start-and-every-dot,same-for-list-and-cdb', rh.unit + ':rcpthosts', 'list lookup candidates %s, cdb lookup candidates %s' % (sorted(p1), sorted(p2)))
-    at = [c for c in rh.calls('byte_rchr') if c.args[-1].const == ord('@')]
-    r4.check(bool(at), 'domain-is-the-part-after-the-last-@', rh.unit + ':rcpthosts', '')
-    r1s = [x for x in rh.all_x() if x.k == 'ret' and x.args and x.args[0].const == 1]
-    open_default = any(any('flagrh' in c.src() and t is True for c, t in rh.guards(x) or []) for x in r1s)
-    no_at = any(any(c.strip().k == 'bin' and c.strip().op == '>=' and t is True for c, t in rh.guards(x) or []) for x in r1s)
-    r4.check(open_default and no_at, 'no-file-or-no-@->allowed', rh.unit + ':rcpthosts', '')
-    prop = any(x.k == 'ret' and x.args and (x.args[0].var or '').startswith('L:r') for x in rh.all_x())
+    import itertools
+    doms = [''] + [''.join(t) for n in (1, 2, 3, 4) for t in itertools.product('X.', repeat=n)]
+    addrs = [('u@' + d, d) for d in doms] + [('a@b@X.X', 'X.X'), ('noat', None), ('', None)]
+    ncell = 0
+    for addr_, dom in addrs:
+        for flagrh in (0, 1):
+            for fdm in (-1, 5):
+                if flagrh == 0 and (fdm == 5 or len(addr_) > 4):
+                    continue
+                H = RcptHooks(addr_)
+                e = Engine(db, prog, H)
+                fid = e.frame_id(rh)
+                st = {'%s::%s' % (fid, rh.params[0]): fs(('&', 'BUF[0]')), '%s::%s' % (fid, rh.params[1]): fs(len(addr_)),
+                      'S:rcpthosts_c:flagrh': fs(flagrh), 'S:rcpthosts_c:fdmrh': fs(fdm)}
+                for i_, ch in enumerate(addr_):
+                    st['BUF[%d]' % i_] = fs(ord(ch))
+                e.run(rh, st)
+                rep.count_states(e.states, e.transitions)
+                if not H.results:
+                    raise AnalysisBroken('rcpthosts(): no return reached for %r' % addr_)
+                bad_ = [r_ for r_ in H.results if not rcpt_ref_ok(r_[0], r_[1], dom, flagrh, fdm)]
+                ncell += 1
+                r4.check(not bad_, 'rcpthosts(%r,flagrh=%d,%s)' % (addr_, flagrh, 'cdb' if fdm != -1 else 'no-cdb'), rh.unit + ':rcpthosts',
+                         'lookups and result %s do not match the documented candidates (whole lower-cased domain and every dot suffix; list first, then cdb; hit -> 1, cdb error -> -1, else 0)' % ([(b_[0], b_[1]) for b_ in bad_[:1]],),
+                         bad_[0][2] if bad_ else None)
+    r4.check(ncell >= 60, 'rcpthosts-cells-explored', rh.unit + ':rcpthosts', '%d' % ncell)
+    rep.exhaustive_rules.append('C08.4-rcpthosts')
     aa = prog.fn('addrallowed', 'qmail-smtpd.c')
-    dc = aa.calls('die_control')
-    r4.check(prop and bool(dc) and any(c.strip().k == 'bin' and c.strip().args[1].const == -1 and t is True for c, t in aa.guards(dc[0]) or []), 'cdb-result-propagated,-1->die_control', 'rcpthosts.c/qmail-smtpd.c', '')
-    r4.expect_min(5)
+    dc = deep_calls(prog, aa, 'die_control', depth=1)
+    okp = bool(dc)
+    for f_, c_ in dc:
+        cv = consistent_values(f_, c_, (-1, 0, 1), key=lambda v: 'r')
+        okp = okp and cv.get('r') == {-1}
+    rets = [x for x in aa.all_x() if x.k == 'ret' and x.args]
+    r4.check(okp and bool(rets), 'cdb-error->die_control', 'qmail-smtpd.c:addrallowed', 'die_control() must be reached exactly when rcpthosts() reports -1')
+    r4.expect_min(60)
     rep.assume('addrparse(), bmfcheck() and rcpthosts() results are abstract (any outcome) in the automaton', 'constmap/cdb lookups as string functions are not decided')
